@@ -47,6 +47,20 @@ pub fn family() -> Vec<Key> {
     v
 }
 
+/// The 20-key family of the "wide" multi-proof cases: the 12-key family plus eight more keys
+/// diverging from the base at bits 3,4,5,8,9,10,11,13.
+pub fn family_wide() -> Vec<Key> {
+    let base = key_from_bits("0101101001011010010110100101", false);
+    let mut v = family();
+    for d in [4usize, 5, 8, 9, 10, 11, 13, 14] {
+        v.push(util::flip_bit(&base, d));
+    }
+    v.sort();
+    v.dedup();
+    assert_eq!(v.len(), 20);
+    v
+}
+
 fn vh(i: usize, class: u8) -> Vh {
     H::hash_value(&[i as u8, class, 0x5a])
 }
@@ -60,7 +74,10 @@ struct Trie {
 
 impl Trie {
     fn new(mask: u32) -> Self {
-        let fam = family();
+        Self::with_family(family(), mask)
+    }
+
+    fn with_family(fam: Vec<Key>, mask: u32) -> Self {
         let mut set = BTreeMap::new();
         for (i, k) in fam.iter().enumerate() {
             if mask >> i & 1 == 1 {
@@ -373,6 +390,75 @@ fn rdesc(r: &Result<Node, String>) -> String {
     match r {
         Ok(n) => hex(&n[..6]),
         Err(e) => format!("Err({e})"),
+    }
+}
+
+impl ProofX {
+    /// Wide multi-proofs: almost all of a 20-key family present, every family key queried (so the
+    /// proof has up to 20 terminals), every write set of one or two operations anywhere.
+    fn run_c07_wide(&mut self, case: &Value) -> Outcome {
+        let mask = case["s"].as_u64().unwrap() as u32;
+        let t = Trie::with_family(family_wide(), mask);
+        let fam = t.fam.clone();
+        let mut out = Outcome::default();
+        out.nontrivial = true;
+        let honest: Vec<PathProof> = fam.iter().map(|k| t.honest(k)).collect();
+        let mut proofs: Vec<(usize, PathProof)> = vec![];
+        for qi in 0..fam.len() {
+            let p = honest[qi].clone();
+            let d = p.siblings.len();
+            if proofs.iter().any(|(oi, o)| o.siblings.len() == d && prefix_eq(&fam[qi], &fam[*oi], d)) {
+                continue;
+            }
+            proofs.push((qi, p));
+        }
+        proofs.sort_by(|a, b| fam[a.0][..].cmp(&fam[b.0][..]));
+        let positions: Vec<(Key, usize)> = proofs.iter().map(|(qi, p)| (fam[*qi], p.siblings.len())).collect();
+        let mp = MultiProof::from_path_proofs(proofs.iter().map(|(_, p)| p.clone()).collect());
+        let verified = match verify_multi_proof::<H>(&mp, t.root) {
+            Ok(vp) => vp,
+            Err(e) => {
+                out.violation = Some(v("multi-verify-honest", format!("wide honest multi-proof over S={mask:#x} does not verify: {e:?}")));
+                return out;
+            }
+        };
+        let singles: Vec<_> = proofs.iter().map(|(qi, p)| p.verify::<H>(fam[*qi].view_bits::<Msb0>(), t.root).expect("honest path proof")).collect();
+        // queries
+        for (gi, g) in fam.iter().enumerate() {
+            let present = t.set.get(g);
+            let leaf_true = LeafData { key_path: *g, value_hash: present.cloned().unwrap_or(vh(gi, 0)) };
+            let mv = verified.confirm_value(&leaf_true);
+            let mn = verified.confirm_nonexistence(g);
+            if !(matches!(mv, Ok(x) if x == present.is_some()) && matches!(mn, Ok(x) if x == present.is_none())) {
+                out.violation = Some(v("multi-confirm", format!("wide S={mask:#x} key #{gi} present={}: confirm_value={mv:?} nonexistence={mn:?}", present.is_some())));
+                return out;
+            }
+        }
+        let all: Vec<usize> = (0..fam.len()).collect();
+        for w in write_sets(&all, &fam, 2) {
+            let truth = t.root_after(&w);
+            let m = verify_multi_proof_update::<H>(&verified, w.clone());
+            let mut updates = vec![];
+            for (pi, (k, d)) in positions.iter().enumerate() {
+                let ops: Vec<(Key, Option<Vh>)> = w.iter().filter(|(wk, _)| prefix_eq(wk, k, *d)).cloned().collect();
+                if !ops.is_empty() {
+                    updates.push(PathUpdate { inner: singles[pi].clone(), ops });
+                }
+            }
+            let p = verify_update::<H>(t.root, &updates);
+            out.transitions += 1;
+            if !(matches!(m, Ok(r) if r == truth) && matches!(p, Ok(r) if r == truth)) {
+                out.violation = Some(v(
+                    "update-root",
+                    format!("wide S={mask:#x} ({} terminals) W={}: multi update = {}, per-path update = {}, reference = {}", positions.len(), wdesc(&w, &fam), rdesc(&m.map_err(|e| format!("{e:?}"))), rdesc(&p.map_err(|e| format!("{e:?}"))), hex(&truth[..6])),
+                ));
+                return out;
+            }
+        }
+        out.sig = fnv_str(&format!("wide{mask}:{}", positions.len()));
+        out.states.push(mask as u64 | 1 << 40);
+        out.goals.push(if positions.len() >= 14 { "wide:>=14-terminals" } else { "wide:<14-terminals" });
+        out
     }
 }
 
@@ -1016,7 +1102,22 @@ impl ProofX {
                                         record("VerifiedPathProof::confirm", &class, m, &mut found);
                                     }
                                 }
-                                for ops in &op_lists {
+                                // operation lists relative to this path: in-scope duplicates
+                                // (both writes, write+delete), in-scope unsorted pair
+                                let scoped: Vec<usize> = (0..fam.len()).filter(|i| fam[*i].view_bits::<Msb0>().starts_with(vp.path())).collect();
+                                let mut lists = op_lists.clone();
+                                if let Some(&a) = scoped.first() {
+                                    lists.push(vec![(fam[a], Some(vh(a, 0))), (fam[a], Some(vh(a, 1)))]);
+                                    lists.push(vec![(fam[a], None), (fam[a], None)]);
+                                    lists.push(vec![(fam[a], Some(vh(a, 1))), (fam[a], None)]);
+                                    if let Some(&b) = scoped.last() {
+                                        if a != b {
+                                            lists.push(vec![(fam[b], Some(vh(b, 1))), (fam[a], Some(vh(a, 1)))]);
+                                            lists.push(vec![(fam[a], Some(vh(a, 1))), (fam[b], Some(vh(b, 1))), (fam[b], Some(vh(b, 0)))]);
+                                        }
+                                    }
+                                }
+                                for ops in &lists {
                                     let upd = vec![
                                         PathUpdate {
                                             inner: vp.clone(),
@@ -1077,7 +1178,15 @@ impl ProofX {
                                     }
                                 }
                             }
-                            for ops in &op_lists {
+                            let mut lists = op_lists.clone();
+                            for (i, k) in fam.iter().enumerate() {
+                                if vm.find_index_for(k).is_ok() {
+                                    lists.push(vec![(*k, Some(vh(i, 0))), (*k, Some(vh(i, 1)))]);
+                                    lists.push(vec![(*k, None), (*k, None)]);
+                                    break;
+                                }
+                            }
+                            for ops in &lists {
                                 if let Err(m) = guarded(|| verify_multi_proof_update::<H>(&vm, ops.clone())) {
                                     record("verify_multi_proof_update", &class, m, &mut found);
                                 }
@@ -1113,11 +1222,16 @@ impl Engine for ProofX {
         match prop {
             "C07" => {
                 let (smax, qmax, wmax) = if thorough { (5, 4, 3) } else { (4, 3, 2) };
-                let cases = masks_upto(12, smax)
+                let mut cases: Vec<Value> = masks_upto(12, smax)
                     .into_iter()
                     .map(|(m, k)| json!({"mode": "c07", "s": m, "bound": k, "qmax": qmax, "wmax": wmax}))
                     .collect();
-                let mut p = Plan::new(cases, format!("proofx: every key set S of ≤{smax} keys from a 12-key family (diverging at bits 0,1,2,6,7,12,255 + a 4-cluster sharing 20 bits) × every non-empty query set Q of ≤{qmax} family keys (present and absent; honest path proofs from the independent reference trie, de-duplicated, ordered) aggregated by MultiProof::from_path_proofs × every sorted write set of ≤{wmax} operations (delete / write) over the keys in scope; oracle: multi-proof verifies, every confirm_* (also _with_index for every index, find_index_for) equals the single-path answer and the truth, verify_multi_proof_update = verify_update = reference root of the updated set. One case = one S; bound = |S|; transitions = (S,Q) and (S,Q,W) combinations checked."));
+                // wide proofs: the 20-key family minus every subset of ≤ 2 (thorough: 3) keys
+                for (m, k) in masks_upto(20, if thorough { 3 } else { 2 }) {
+                    cases.push(json!({"mode": "c07w", "s": 0xFFFFFu32 ^ m, "bound": k}));
+                }
+                cases.sort_by_key(|c| c["bound"].as_u64().unwrap());
+                let mut p = Plan::new(cases, format!("proofx: every key set S of ≤{smax} keys from a 12-key family (diverging at bits 0,1,2,6,7,12,255 + a 4-cluster sharing 20 bits) × every non-empty query set Q of ≤{qmax} family keys (present and absent; honest path proofs from the independent reference trie, de-duplicated, ordered) aggregated by MultiProof::from_path_proofs × every sorted write set of ≤{wmax} operations (delete / write) over the keys in scope; oracle: multi-proof verifies, every confirm_* (also _with_index for every index, find_index_for) equals the single-path answer and the truth, verify_multi_proof_update = verify_update = reference root of the updated set. Plus 'wide' cases: a 20-key family minus every subset of ≤2 (thorough ≤3) keys, all 20 keys queried at once (up to 20 terminals in one multi-proof), every write set of 1..2 operations anywhere (written terminals separated by 0..18 untouched ones). One case = one S; bound = |S| (wide: number of removed keys); transitions = (S,Q) and (S,Q,W) combinations checked."));
                 p.budget_s = if thorough { 1700 } else { 45 };
                 p.assumptions = vec!["Blake3 hasher; key family of 12; value hashes from two classes per key".into()];
                 p
@@ -1153,6 +1267,7 @@ impl Engine for ProofX {
     fn run(&mut self, _prop: &str, case: &Value) -> Outcome {
         match case["mode"].as_str().unwrap() {
             "c07" => self.run_c07(case),
+            "c07w" => self.run_c07_wide(case),
             "c08" => self.run_c08(case),
             "c18" => self.run_c18(case),
             m => panic!("bad mode {m}"),
